@@ -1,6 +1,7 @@
-(* C08 — median against the order statistics of the list; stddev against the definition of the sample standard deviation. *)
+(* C08 — median against the order statistics of the list (the arithmetic of the even case: C08/NumProofs.v). *)
 From Coq Require Import List NArith ZArith Bool Arith Lia Permutation Sorted.
-From DV Require Import C09.Values C09.Model C09.Proofs C08.Model C08.Model2 C08.Proofs C08.SortProofs C08.ModeProofs C08.StddevSqrt.
+From DV Require Import Base.DecRound.
+From DV Require Import C09.Values C09.Model C09.Proofs C08.Model C08.Model2 C08.Proofs C08.SortProofs C08.ModeProofs C08.NumProofs.
 Import ListNotations.
 
 (* ================= counting ================= *)
@@ -99,7 +100,7 @@ Qed.
 Theorem median_order_stat : forall n ns,
   let l := n :: ns in let k := (length l / 2)%nat in
   if Nat.even (length l)
-  then exists lo hi, b_median (map vnum l) = vnum (ndiv (nadd lo hi) (2%Z, 0%Z)) /\ is_order_stat l (k - 1) lo /\ is_order_stat l k hi
+  then exists lo hi, b_median (map vnum l) = vopt (obind (nadd lo hi) (fun t => ndiv t (2%Z, 0%Z))) /\ is_order_stat l (k - 1) lo /\ is_order_stat l k hi
   else exists m, b_median (map vnum l) = vnum m /\ is_order_stat l k m.
 Proof.
   intros n ns l k. pose proof (median_spec n ns) as M. cbv zeta in M. fold l in M.
@@ -115,77 +116,3 @@ Proof.
     apply (order_stat_perm (nsort l) l); [exact Perm|]. apply sorted_order_stat; [exact Sorted|lia].
 Qed.
 
-(* ================= stddev ================= *)
-Definition rsum (l : list (Z * Z)) : Z * Z := fold_left radd l (0%Z, 0%Z).
-
-Lemma stddev_collect_numbers : forall l sum acc,
-  stddev_collect (map vnum l) sum acc = Some (fold_left radd l sum, acc ++ l).
-Proof.
-  induction l as [|[c e] l IH]; intros sum acc; cbn [map vnum fst snd stddev_collect fold_left].
-  - rewrite app_nil_r. reflexivity.
-  - rewrite IH. rewrite <- app_assoc. reflexivity.
-Qed.
-Lemma fold_left_map' : forall A B (f : A -> B) (g : B -> B -> B) l a,
-  fold_left (fun s x => g s (f x)) l a = fold_left g (map f l) a.
-Proof. intros A B f g l. induction l as [|x l IH]; intros a; cbn [fold_left map]; auto. Qed.
-
-(* stddev(x1, ..., xn), n >= 2: the square root of (the sum of the squared deviations from the mean) / (n - 1);
-   every operation is the exact one followed by the rounding to 34 digits (nround), the division is ndiv *)
-Theorem stddev_spec : forall sqrt x1 x2 ns,
-  let l := x1 :: x2 :: ns in
-  let n := (Z.of_nat (length l), 0%Z) in
-  let mean := ndiv (rsum l) n in
-  let squares := map (fun x => rsquare (rsub x mean)) l in
-  b_stddev sqrt (map vnum l) =
-  match sqrt (ndiv (rsum squares) (rsub n (1%Z, 0%Z))) with Some r => vnum r | None => VNull end.
-Proof.
-  intros sqrt x1 x2 ns l n mean squares. unfold b_stddev.
-  change (map vnum l) with (vnum x1 :: vnum x2 :: map vnum ns).
-  change (vnum x1 :: vnum x2 :: map vnum ns) with (map vnum l).
-  assert (E : stddev_collect (map vnum l) (0%Z, 0%Z) [] = Some (rsum l, l)) by (rewrite stddev_collect_numbers; reflexivity).
-  unfold l at 1. cbn [map]. change (vnum x1 :: vnum x2 :: map vnum ns) with (map vnum l). rewrite E.
-  unfold stddev_radicand. rewrite fold_left_map'. reflexivity.
-Qed.
-
-Theorem stddev_outside : forall sqrt,
-  b_stddev sqrt [] = VNull /\ (forall x, b_stddev sqrt [x] = VNull) /\
-  forall pre x post, (match x with VNum _ _ => False | _ => True end) -> b_stddev sqrt (map vnum pre ++ x :: post) = VNull.
-Proof.
-  intros sqrt. split; [reflexivity|]. split; [reflexivity|]. intros pre x post Hx.
-  assert (N : forall sum acc, stddev_collect (map vnum pre ++ x :: post) sum acc = None).
-  { induction pre as [|[c e] pre IH]; intros sum acc; cbn [map app vnum fst snd stddev_collect].
-    - destruct x; try contradiction; reflexivity.
-    - apply IH. }
-  unfold b_stddev. rewrite N.
-  destruct (map vnum pre ++ x :: post) as [|a [|b r]]; reflexivity.
-Qed.
-
-(* the rounding is the identity on coefficients of at most 34 digits: there the operations are the exact ones *)
-Open Scope Z_scope.
-Lemma nround_exact : forall c e, digits (Z.abs c) <= 34 -> nround (c, e) = (c, e).
-Proof.
-  intros c e H. unfold nround, round34. cbn [fst snd].
-  destruct (digits (Z.abs c) - 34 <=? 0) eqn:E; [|apply Z.leb_gt in E; lia].
-  destruct (c <? 0) eqn:S; f_equal; [apply Z.ltb_lt in S|apply Z.ltb_ge in S]; lia.
-Qed.
-Corollary radd_exact : forall a b, digits (Z.abs (fst (nadd a b))) <= 34 -> radd a b = nadd a b.
-Proof. intros a b H. unfold radd. destruct (nadd a b) as [c e]. apply nround_exact. exact H. Qed.
-
-(* with the integer square root as `sqrt`: stddev(2, 4, 4, 4, 5, 5, 7, 9) = sqrt(32 / 7), stddev(1, 2, 3) = sqrt(1) *)
-Definition sqrt_int (a : Z * Z) : option (Z * Z) :=
-  match to_int (fst a) (snd a) with Some n => if Z.sqrt n * Z.sqrt n =? n then Some (Z.sqrt n, 0) else None | None => None end.
-Lemma stddev_nonvacuous :
-  b_stddev sqrt_int (map vnum [(1, 0); (2, 0); (3, 0)]) = VNum 1 0 /\
-  b_stddev sqrt_int (map vnum [(10, 0); (20, 0); (60, 0)]) = VNull /\
-  match stddev_radicand_of (map vnum [(10, 0); (20, 0); (60, 0)]) with Some r => ncmp (fst r) (snd r) 700 0 | None => Gt end = Eq /\
-  match stddev_radicand_of (map vnum [(2, 0); (4, 0); (4, 0); (4, 0); (5, 0); (5, 0); (7, 0); (9, 0)]) with
-  | Some r => ncmp (fst r * 7) (snd r) 32 0 | None => Gt end = Lt /\
-  rsub (5, 0) (1, 0) = (4, 0).
-Proof. repeat split; vm_compute; reflexivity. Qed.
-
-(* with the decimal128 square root of Base/DecRound.v (C02/Sqrt.v proves it correctly rounded): the values the code prints *)
-Lemma stddev_dec_nonvacuous :
-  b_stddev sqrt_dec (map vnum [(2, 0); (4, 0); (4, 0); (4, 0); (5, 0); (5, 0); (7, 0); (9, 0)]) = VNum 2138089935299395077476427847038028 (-33) /\
-  pos_stddev sqrt_dec [VNum 10 0; VNum 20 0; VNum 60 0] = VNum 2645751311064590590501615753639260 (-32) /\
-  pos_stddev sqrt_dec [VNum 10 0] = VNull /\ pos_stddev sqrt_dec [VList [VNum 1 0; VNum 3 0]] = b_stddev sqrt_dec [VNum 1 0; VNum 3 0].
-Proof. repeat split; vm_compute; reflexivity. Qed.
